@@ -63,12 +63,21 @@ def main():
                 RoboRioSim.setUserVoltage5V([5.0, 4.75, 5.2, 4.9][(k // 512) % 4])
                 RoboRioSim.setVInVoltage([12.0, 7.5, 13.1][(k // 512) % 3])
                 RoboRioSim.setUserVoltage3V3([3.3, 3.1][(k // 512) % 2])
+                RoboRioSim.setUserActive5V((k // 512) % 3 != 1)        # (the rail's "active" flag is not the sensor's business)
+            if k % 7 == 3:
+                # a reading taken just before at a voltage inside the same ADC step must leave no trace
+                sim.setVoltage(5.0 * k / 4096 + 0.0004)
+                try:
+                    s.getDistance()
+                except Exception:  # noqa
+                    pass
             sim.setVoltage(5.0 * k / 4096)
             try:
                 obs.append(ucm(s.getDistance()))
             except Exception:  # noqa
                 obs.append(-1)
         out["obs"][name] = obs
+        RoboRioSim.setUserActive5V(True)
         sp = []
         for v, low in SPECIAL:
             sim.setVoltage(v)
